@@ -18,12 +18,12 @@ Full == << <<"x">>, <<"a", ".", "b">>, <<"1">>, <<"2", ".", "5">>, <<"9","9","9"
            <<"let">>, <<"if">>, <<"else">>, <<"for">>, <<"in">>, <<"fn">>, <<"return">>, <<"break">>, <<"continue">>,
            <<"=">>, <<"=", "=">>, <<"!", "=">>, <<"!">>, <<"+">>, <<"-">>, <<"*">>, <<"/">>, <<"<">>, <<">", "=">>, <<"~", "=">>, <<"AMP", "AMP">>, <<"|", "|">>,
            <<"(">>, <<")">>, <<"LBR">>, <<"RBR">>, <<"[">>, <<"]">>, <<",">>, <<":">>, <<";">>, <<".">>, <<"HASH", "c", "NL">>,
-           <<"AMP">>, <<"@">>, <<"PCT", ">">>, <<"<", "PCT">>, <<"<", "PCT", "=">>, <<"<", "PCT", "HASH">>, <<"t", "x", "t">> >>
+           <<"BSL">>, <<"BSL", "BSL">>, <<"BSL", "<">>, <<"AMP">>, <<"@">>, <<"PCT", ">">>, <<"<", "PCT">>, <<"<", "PCT", "=">>, <<"<", "PCT", "HASH">>, <<"t", "x", "t">> >>
 \* a reduced vocabulary (one token per parser-relevant class) for the longer exhaustive run
 Small == << <<"x">>, <<"1">>, <<"9","9","9","9","9","9","9","9","9","9","9","9","9","9","9","9","9","9","9","9">>, <<"QUOT", "s", "QUOT">>,
             <<"let">>, <<"if">>, <<"else">>, <<"for">>, <<"in">>, <<"fn">>, <<"return">>, <<"break">>,
             <<"=">>, <<"!">>, <<"+">>, <<"-">>, <<"(">>, <<")">>, <<"LBR">>, <<"RBR">>, <<"[">>, <<"]">>, <<",">>, <<":">>, <<".">>,
-            <<"PCT", ">">>, <<"<", "PCT">>, <<"<", "PCT", "=">>, <<"<", "PCT", "HASH">>, <<"t">> >>
+            <<"PCT", ">">>, <<"<", "PCT">>, <<"<", "PCT", "=">>, <<"<", "PCT", "HASH">>, <<"t">>, <<"BSL">>, <<"BSL", "<">> >>
 Vocab == IF Vocabulary = "full" THEN Full ELSE Small
 
 VARIABLE toks      \* sequence of indices into Vocab
@@ -32,11 +32,15 @@ Init == toks = <<>>
 Next == Len(toks) < K /\ \E i \in 1..Len(Vocab) : toks' = Append(toks, i)
 Spec == Init /\ [][Next]_vars
 
+RECURSIVE Tight(_)
+Tight(ts) == IF ts = <<>> THEN <<>> ELSE Vocab[Head(ts)] \o Tight(Tail(ts))     \* no separators
 RECURSIVE Spell(_)
 Spell(ts) == IF ts = <<>> THEN <<>> ELSE Vocab[Head(ts)] \o <<" ">> \o Spell(Tail(ts))
 
 Framings(body) ==
-  [ closed   |-> <<"<", "PCT", " ">> \o body \o <<"PCT", ">">>,
+  [ plain    |-> Tight(toks),                                                   \* the tokens as literal text, nothing after them
+    aftertag |-> <<"<", "PCT", "=", " ", "1", " ", "PCT", ">">> \o Tight(toks),
+    closed   |-> <<"<", "PCT", " ">> \o body \o <<"PCT", ">">>,
     output   |-> <<"<", "PCT", "=", " ">> \o body \o <<"PCT", ">">>,
     unclosed |-> <<"<", "PCT", " ">> \o body,
     nested   |-> <<"<", "PCT", " ">> \o body \o <<"<", "PCT", " ">>,
